@@ -253,8 +253,8 @@ func runRCInner(c *vt.C, s *RCScript, th Thr) (nontrivial bool, f *vt.Finding) {
 			where := fmt.Sprintf("after op %d (%s #%d; %d of %d processors running) probe on #%d %s (first=%d [%s] post=%d [%s], soft=%d hard=%d, %v)",
 				oi, op.Kind, op.Proc, running, len(procs), op.On, procs[op.On].signal, ph.First, th.place(ph.First), ph.Post, th.place(ph.Post), th.Soft, th.Hard, s.Cfg)
 			id := src.setLevel(ph.First, ph.Post)
-			if !src.awaitCheck(id, stallTicks) {
-				return true, vt.Failf("refcount/checker-stopped-while-users-remain", "%s: no memory reading at all during %d consecutive 50 ms harness ticks although check_interval is 1 ms", where, stallTicks)
+			if why := src.awaitCheckWhy(id, stallTicks); why != "" {
+				return true, vt.Failf(stallSig("refcount/checker-stopped-while-users-remain", why), "%s: %s", where, why)
 			}
 			want, wantGC := expectRefuse(s.Cfg, th, ph.First, ph.Post)
 			for j, cl := range ph.Calls {
@@ -285,5 +285,5 @@ func runRCInner(c *vt.C, s *RCScript, th Thr) (nontrivial bool, f *vt.Finding) {
 
 func TestRefCount(t *testing.T) {
 	shrinkBudget("10s") // a failing case costs milliseconds to seconds: bound the time rapid spends minimising
-	vt.Run(t, cRC, vt.N(500, 8000), genRC, runRC)
+	vt.Run(t, cRC, vt.N(700, 12000), genRC, runRC)
 }
